@@ -79,6 +79,13 @@ def h2_extra(oracle_names, counts, crashes=True):
             errs = [(nm, e) for nm, e in s.sess.errors() if not nm.startswith("app")]
             if errs:
                 fails.append({"case": {"seed": seed, "h2": d}, "what": f"task errors {errs}", "signature": "h2e2e:task-error"})
+        if "c02" in oracle_names and oracle_names[0] == "c02":
+            for i in range(ctx.scale(12, 150, 40)):
+                d, f = E2.trailers_case(ctx.seed * 6133 + i)
+                n += 1
+                dist["h2_trailers"] = dist.get("h2_trailers", 0) + 1
+                for what, sig in f:
+                    fails.append({"case": d, "what": what, "signature": sig})
         if "c01" in oracle_names:
             for i in range(ctx.scale(3, 30, 10)):
                 d, f = E2.padded_upload(ctx.seed * 7477 + i)
